@@ -357,3 +357,317 @@ Section ExportProofs.
     rewrite Hc. unfold filtered_spec. destruct (f_kind f); reflexivity.
   Qed.
 End ExportProofs.
+
+Arguments tagged {A}.
+Arguments filtered_spec {A}.
+
+Section ExportProofs2.
+  Variable A : Type.
+  Variables (d z : A) (enum : Z -> A).
+
+  Notation call := (call A).
+  Notation content := (content A).
+
+  Definition sel_fast (fa : option (list bool)) (h5 : bool) : bool :=
+    match fa with None => true | Some fl => forallb (fun b => b) fl && h5 end.
+
+  Definition whole_spec (k : kind) (data : list A) : list A :=
+    match k with
+    | KIndex => map enum (zrange 1 (length data))
+    | _ => data
+    end.
+
+  Definition of_feature (f : feat A) (cl : call) : Prop :=
+    fst (fst cl) = f_name f
+    /\ exists p, In p (f_parts f) /\ snd (fst cl) = p_key p.
+
+  Lemma bind_all_tagged (g : part A -> res (list call)) (f : feat A) parts cs :
+    (forall p c, g p = Ok c -> tagged (f_name f) (p_key p) c) ->
+    bind_all A g parts = Ok cs ->
+    Forall (fun cl : call => fst (fst cl) = f_name f
+                             /\ exists p, In p parts /\ snd (fst cl) = p_key p) cs.
+  Proof.
+    intros Hg Hb. apply bind_all_ok in Hb. destruct Hb as (rs & HF & ->).
+    induction HF as [|p c ps rs Hp HF IH]; [constructor|].
+    cbn [concat]. apply Forall_app. split.
+    - specialize (Hg p c Hp). eapply Forall_impl; [|exact Hg].
+      cbv beta. intros cl [H1 H2]. split; [assumption|].
+      exists p. split; [now left|assumption].
+    - eapply Forall_impl; [|exact IH]. cbv beta.
+      intros cl [H1 (q & Hq & H2)]. split; [assumption|].
+      exists q. split; [now right|assumption].
+  Qed.
+
+  Lemma feat_calls_tagged cfg ds fa f cs :
+    feat_calls A d z enum cfg ds fa f = Ok cs -> Forall (of_feature f) cs.
+  Proof.
+    unfold feat_calls, of_feature. intros H.
+    assert (Hw : forall cs', bind_all A (part_whole A enum (f_name f) (f_kind f))
+                               (f_parts f) = Ok cs' ->
+                 Forall (fun cl : call => fst (fst cl) = f_name f /\
+                     exists p, In p (f_parts f) /\ snd (fst cl) = p_key p) cs').
+    { intros cs'. apply bind_all_tagged. intros p c. apply part_whole_tagged. }
+    destruct fa as [fl|]; [|now apply Hw].
+    destruct (forallb (fun b => b) fl && ds_hdf5 ds); [now apply Hw|].
+    unfold store_filtered in H. destruct (where_ fl).
+    - inversion H. constructor.
+    - revert H. apply bind_all_tagged. intros p c. apply part_filtered_tagged.
+  Qed.
+
+  Lemma content_other_feature f cs n k :
+    Forall (of_feature f) cs -> f_name f <> n -> content cs n k = [].
+  Proof.
+    intros HF Hne. induction HF as [|[[a b] ev] cs [Ha _] _ IH]; [reflexivity|].
+    cbn [fst snd] in Ha. unfold C02.content in *. cbn [flat_map]. rewrite IH.
+    replace ((a =? n) && (b =? k)) with false by lia. reflexivity.
+  Qed.
+
+  Lemma feat_calls_content cfg ds fa f cs :
+    NoDup (map p_key (f_parts f)) ->
+    feat_calls A d z enum cfg ds fa f = Ok cs ->
+    forall p, In p (f_parts f) ->
+      if sel_fast fa (ds_hdf5 ds)
+      then content cs (f_name f) (p_key p) = whole_spec (f_kind f) (p_data p)
+      else exists fl, fa = Some fl
+             /\ content cs (f_name f) (p_key p)
+                = filtered_spec d enum (f_kind f) fl (p_data p)
+             /\ (forall j, In j (where_ fl) -> 0 <= j < len (p_data p)).
+  Proof.
+    intros Hnd H p Hp. unfold feat_calls in H. unfold sel_fast.
+    assert (Hw : bind_all A (part_whole A enum (f_name f) (f_kind f)) (f_parts f)
+                 = Ok cs ->
+                 content cs (f_name f) (p_key p) = whole_spec (f_kind f) (p_data p)).
+    { intros Hb.
+      destruct (bind_all_pick A (part_whole A enum (f_name f) (f_kind f))
+                  p_key (f_name f) (p_key p) (p_key p) (f_parts f) cs Hb)
+        with (x := p) as (cp & Hcp & Hc); auto.
+      - intros x cx Hx Hne. apply part_whole_tagged in Hx.
+        apply (content_other A enum cx _ _ _ _ Hx). now right.
+      - rewrite Hc. now apply part_whole_content in Hcp. }
+    destruct fa as [fl|]; [|now apply Hw].
+    destruct (forallb (fun b => b) fl && ds_hdf5 ds); [now apply Hw|].
+    exists fl. split; [reflexivity|].
+    now apply (store_filtered_content A d z enum cfg f fl cs Hnd H p Hp).
+  Qed.
+
+  (* ---- lookups -------------------------------------------------------------- *)
+  Lemma lookup_some n fs f : lookup A n fs = Some f -> f_name f = n /\ In f fs.
+  Proof.
+    induction fs as [|g t IH]; cbn [lookup]; [discriminate|].
+    destruct (f_name g =? n) eqn:E.
+    - intros [= <-]. split; [lia|now left].
+    - intros H. destruct (IH H). split; [assumption|now right].
+  Qed.
+
+  Lemma lookup_all_ok ds names fs :
+    lookup_all A ds names = Ok fs ->
+    map f_name fs = names /\ Forall (fun f => In f (ds_feats ds)) fs.
+  Proof.
+    revert fs; induction names as [|n t IH]; intros fs H; cbn [lookup_all] in H.
+    - inversion H. split; [reflexivity|constructor].
+    - destruct (lookup A n (ds_feats ds)) as [f|] eqn:El; [|discriminate].
+      destruct (lookup_all A ds t) as [r|c]; cbn [bind] in H; [|discriminate].
+      inversion H; subst. destruct (IH r eq_refl) as [H1 H2].
+      apply lookup_some in El. destruct El as [E1 E2].
+      split; [cbn [map]; now rewrite E1, H1|constructor; assumption].
+  Qed.
+
+  Lemma in_lengths fs f p :
+    In f fs -> In p (f_parts f) -> In (len (p_data p)) (lengths A fs).
+  Proof.
+    intros Hf Hp. unfold lengths. apply in_flat_map. exists f. split; [assumption|].
+    apply in_map_iff. exists p. split; [reflexivity|assumption].
+  Qed.
+
+  Lemma lengths_inv fs x :
+    In x (lengths A fs) ->
+    exists f p, In f fs /\ In p (f_parts f) /\ x = len (p_data p).
+  Proof.
+    unfold lengths. intros H. apply in_flat_map in H. destruct H as (f & Hf & H).
+    apply in_map_iff in H. destruct H as (p & <- & Hp). eauto.
+  Qed.
+
+  (* ---- the filter array in use selects what the specification says -------------- *)
+  Lemma spec_idx_lim_eq filtered filt l (data : list A) :
+    l = len data ->
+    spec_idx A filtered filt (Some l) data = spec_idx A filtered filt None data.
+  Proof.
+    intros ->. unfold spec_idx. apply filter_ext. intros i. lia.
+  Qed.
+
+  Lemma sel_spec_plain (h5 : bool) filt filtered (data : list A) :
+    len data <= len filt ->
+    let fa := if filtered then Some filt else None in
+    if sel_fast fa h5
+    then spec_idx A filtered filt None data = zrange 0 (length data)
+    else forall fl, fa = Some fl ->
+           (forall j, In j (where_ fl) -> 0 <= j < len data) ->
+           spec_idx A filtered filt None data = where_ fl.
+  Proof.
+    intros Hle. destruct filtered; cbn [sel_fast].
+    - destruct (forallb (fun b => b) filt && h5) eqn:Ef.
+      + apply andb_prop in Ef. destruct Ef as [Ef _].
+        unfold spec_idx, where_. rewrite where_from_all_true by assumption.
+        rewrite (filter_ext _ (fun j => j <? len data)) by (intros i; lia).
+        rewrite filter_lt_zrange by (unfold len in *; lia).
+        f_equal. unfold len. lia.
+      + intros fl [= <-] Hr. unfold spec_idx. apply filter_true.
+        intros j Hj. specialize (Hr j Hj). lia.
+    - unfold spec_idx. apply filter_true. intros j Hj.
+      apply zrange_bounds in Hj. unfold len. lia.
+  Qed.
+
+  Lemma sel_spec ds filt filtered skip fs f p :
+    len filt = ds_len ds ->
+    (forall f' p', In f' fs -> In p' (f_parts f') ->
+                   len (p_data p') <= ds_len ds) ->
+    In f fs -> In p (f_parts f) ->
+    if sel_fast (filter_arr A ds filt filtered skip fs) (ds_hdf5 ds)
+    then spec_idx A filtered filt (spec_lim A skip fs) (p_data p)
+         = zrange 0 (length (p_data p))
+    else forall fl, filter_arr A ds filt filtered skip fs = Some fl ->
+           (forall j, In j (where_ fl) -> 0 <= j < len (p_data p)) ->
+           spec_idx A filtered filt (spec_lim A skip fs) (p_data p) = where_ fl.
+  Proof.
+    intros Hlen Hle Hf Hp.
+    pose proof (Hle f p Hf Hp) as Hdata.
+    pose proof (sel_spec_plain (ds_hdf5 ds) filt filtered (p_data p)
+                  ltac:(lia)) as Hplain. cbv zeta in Hplain.
+    unfold filter_arr, spec_lim. destruct skip; [exact Hplain|].
+    pose proof (in_lengths fs f p Hf Hp) as Hin.
+    destruct (lengths A fs) as [|h t] eqn:El; [exact Hplain|].
+    set (lmin := zmin_list A h t). set (lmax := zmax_list A h t).
+    pose proof (zmin_le A h t _ Hin) as Hmin. fold lmin in Hmin.
+    pose proof (zmax_ge A h t _ Hin) as Hmax. fold lmax in Hmax.
+    destruct (lmin =? lmax) eqn:Eq.
+    - rewrite spec_idx_lim_eq by lia. exact Hplain.
+    - assert (H0 : 0 <= lmin).
+      { pose proof (zmin_in A h t) as Hi. fold lmin in Hi. rewrite <- El in Hi.
+        apply lengths_inv in Hi. destruct Hi as (f' & p' & _ & _ & ->).
+        apply len_nonneg. }
+      assert (Hmaxle : lmax <= ds_len ds).
+      { pose proof (zmax_in A h t) as Hi. fold lmax in Hi. rewrite <- El in Hi.
+        apply lengths_inv in Hi. destruct Hi as (f' & p' & Hf' & Hp' & ->).
+        now apply Hle. }
+      set (base := match (if filtered then Some filt else None) with
+                   | Some f0 => f0
+                   | None => repeat true (Z.to_nat (ds_len ds))
+                   end).
+      assert (Hbase : len base = ds_len ds).
+      { unfold base. destruct filtered; [assumption|].
+        unfold len. rewrite repeat_length.
+        pose proof (len_nonneg filt). lia. }
+      cbn [sel_fast].
+      destruct (forallb (fun b => b) (trunc lmin base) && ds_hdf5 ds) eqn:Ef.
+      + exfalso. apply andb_prop in Ef. destruct Ef as [Ef _].
+        destruct (Z_lt_ge_dec lmin (len base)) as [Hlt|Hge].
+        * rewrite forallb_trunc_false in Ef by assumption. discriminate.
+        * lia.
+      + intros fl [= <-] Hr. rewrite where_trunc by assumption.
+        unfold spec_idx, base. destruct filtered.
+        * apply filter_ext. intros i. lia.
+        * unfold where_ at 1.
+          rewrite where_from_all_true by apply forallb_repeat_true.
+          rewrite repeat_length.
+          rewrite (filter_ext _ (fun j => j <? lmin)) by (intros i; lia).
+          rewrite !filter_lt_zrange; [reflexivity| |unfold len in *; lia].
+          pose proof (len_nonneg filt). lia.
+  Qed.
+
+  (* ---- Export.hdf5 --------------------------------------------------------------- *)
+  Lemma first_call_in (t : list call) : forall best,
+    first_call A best t = best
+    \/ exists ev, In (fst (first_call A best t), snd (first_call A best t), ev) t.
+  Proof.
+    induction t as [|[[n k] ev] t IH]; intros best; cbn [first_call]; [now left|].
+    destruct best as [bn bk].
+    destruct ((n <? bn) || ((n =? bn) && (k <? bk))).
+    - destruct (IH (n, k)) as [E|(ev' & H)].
+      + right. exists ev. rewrite E. now left.
+      + right. exists ev'. now right.
+    - destruct (IH (bn, bk)) as [E|(ev' & H)]; [now left|].
+      right. exists ev'. now right.
+  Qed.
+
+  Lemma export_selects cfg ds filt filtered skip req (calls : list call) cnt :
+    wf_ds A ds -> len filt = ds_len ds ->
+    export A d z enum cfg ds filt filtered skip req = Ok (calls, cnt) ->
+    exists fs,
+      lookup_all A ds (sortset req) = Ok fs
+      /\ map f_name fs = sortset req
+      /\ (forall f p, In f fs -> In p (f_parts f) ->
+            content calls (f_name f) (p_key p)
+            = spec_content A d enum filtered filt (spec_lim A skip fs)
+                           (f_kind f) (p_data p))
+      /\ (forall n k, ~ In n (sortset req) -> content calls n k = [])
+      /\ (calls <> [] -> exists f p, In f fs /\ In p (f_parts f)
+            /\ cnt = len (content calls (f_name f) (p_key p)))
+      /\ (calls = [] ->
+            cnt = match filter_arr A ds filt filtered skip fs with
+                  | Some fl => count_true fl
+                  | None => ds_count ds
+                  end).
+  Proof.
+    intros Hwf Hlen H. unfold export in H.
+    destruct (lookup_all A ds (sortset req)) as [fs|c] eqn:El; cbn [bind] in H;
+      [|discriminate].
+    set (fa := filter_arr A ds filt filtered skip fs) in *.
+    destruct (bind_all A (feat_calls A d z enum cfg ds fa) fs) as [cs|c] eqn:Eb;
+      cbn [bind] in H; [|discriminate].
+    inversion H; subst calls cnt. clear H.
+    destruct (lookup_all_ok ds _ fs El) as [Hnames Hin].
+    rewrite Forall_forall in Hin. unfold wf_ds in Hwf. rewrite Forall_forall in Hwf.
+    assert (Hnd : NoDup (map f_name fs)).
+    { rewrite Hnames. apply sortset_spec. }
+    assert (Hoth : forall n k x cx, feat_calls A d z enum cfg ds fa x = Ok cx ->
+                     f_name x <> n -> content cx n k = []).
+    { intros n k x cx Hx Hne. apply feat_calls_tagged in Hx.
+      now apply content_other_feature with (f := x). }
+    exists fs. split; [reflexivity|]. split; [assumption|].
+    split; [|split; [|split]].
+    - intros f p Hf Hp.
+      destruct (bind_all_pick A (feat_calls A d z enum cfg ds fa) f_name
+                  (f_name f) (p_key p) (f_name f) fs cs Eb (Hoth _ _) Hnd f Hf eq_refl)
+        as (cf & Hcf & ->).
+      destruct (Hwf f (Hin f Hf)) as [Hkeys _].
+      pose proof (feat_calls_content cfg ds fa f cf Hkeys Hcf p Hp) as Hc.
+      pose proof (sel_spec ds filt filtered skip fs f p Hlen) as Hs.
+      fold fa in Hs. specialize (Hs ltac:(
+        intros f' p' Hf' Hp'; destruct (Hwf f' (Hin f' Hf')) as [_ Hl];
+        rewrite Forall_forall in Hl; now apply Hl) Hf Hp).
+      unfold spec_content. destruct (sel_fast fa (ds_hdf5 ds)).
+      + rewrite Hc, Hs. unfold whole_spec.
+        rewrite zrange_length, (take_zrange d). destruct (f_kind f); reflexivity.
+      + destruct Hc as (fl & Efa & Hc & Hr). rewrite Hc, (Hs fl Efa Hr).
+        unfold filtered_spec. pose proof (where_length fl) as Hw. unfold len in Hw.
+        replace (Z.to_nat (count_true fl)) with (length (where_ fl)) by lia.
+        destruct (f_kind f); reflexivity.
+    - intros n k Hn.
+      apply (bind_all_none A (feat_calls A d z enum cfg ds fa) f_name n k n fs cs Eb
+               (Hoth n k)).
+      now rewrite Hnames.
+    - intros Hne. unfold event_count.
+      destruct cs as [|[[n0 k0] ev0] t] eqn:Ecs; [congruence|].
+      rewrite <- Ecs in *.
+      assert (Hall : Forall (fun cl : call => exists f p, In f fs /\ In p (f_parts f)
+                       /\ fst (fst cl) = f_name f /\ snd (fst cl) = p_key p) cs).
+      { clear - Eb. apply bind_all_ok in Eb. destruct Eb as (rs & HF & ->).
+        induction HF as [|f c fs rs Hf HF IH]; [constructor|].
+        cbn [concat]. apply Forall_app. split.
+        - apply feat_calls_tagged in Hf. eapply Forall_impl; [|exact Hf].
+          cbv beta. intros cl [H1 (p & Hp & H2)]. exists f, p.
+          repeat split; auto. now left.
+        - eapply Forall_impl; [|exact IH]. cbv beta.
+          intros cl (f' & p & Hf' & Hp & H1 & H2). exists f', p.
+          repeat split; auto. now right. }
+      rewrite Forall_forall in Hall.
+      destruct (first_call A (n0, k0) t) as [bn bk] eqn:Efc.
+      assert (Hinc : exists ev, In (bn, bk, ev) cs).
+      { destruct (first_call_in t (n0, k0)) as [E|(ev & Hev)].
+        - rewrite Efc in E. inversion E; subst. exists ev0. rewrite Ecs. now left.
+        - rewrite Efc in Hev. cbn [fst snd] in Hev. exists ev. rewrite Ecs. now right. }
+      destruct Hinc as (ev & Hev). destruct (Hall _ Hev) as (f & p & Hf & Hp & H1 & H2).
+      cbn [fst snd] in H1, H2. subst. exists f, p. auto.
+    - intros ->. reflexivity.
+  Qed.
+End ExportProofs2.
